@@ -282,7 +282,9 @@ let monitor (opsf : string) (obsf : string) (outf : string) =
   let same_multiset l1 l2 = List.sort compare l1 = List.sort compare l2 in
   let nodup l = let s = List.sort compare l in let rec go = function a :: (b :: _ as r) -> a <> b && go r | _ -> true in go s in
   let state_checks (a : arena) =
-    bump "C01"; (match c01_check a with [] -> () | l -> report "C01" ("links not a well-formed forest, clauses " ^ codes l));
+    bump "C01"; (match c01_check a with [] -> () | l ->
+       report "C01" ("links not a well-formed forest, clauses " ^ codes l);
+       if List.exists (fun c -> int_of_n c = 1) l then report "C12" "a link of a live node names a removed node or an id of an earlier generation");
     bump "C02"; (match c02_check a with [] -> () | l -> report "C02" ("walk does not end, clauses " ^ codes l));
     bump "C12"; (match c12_state a with [] -> () | _ -> report "C12" "a removed slot still has links") in
   let on_arena (a' : arena) =
@@ -308,6 +310,7 @@ let monitor (opsf : string) (obsf : string) (outf : string) =
              | OWrite _, _ -> "C08"
              | (OClear | OReserve _), _ -> "C13"
              | _, 21 -> "C08"
+             | (ORemove _ | ORemoveSubtree _), 22 -> "C04"
              | _, _ -> "C03") in
            report prop (Printf.sprintf "step effect differs from the documented one (clause %d) after %s" ci cmd);
            if dead_arg && (ci = 10 || ci = 11 || ci = 12) then report "C05" (Printf.sprintf "insert with a removed node mishandled (clause %d)" ci)) failed
